@@ -63,6 +63,12 @@ public:
   void restrictToConstraint(const ConstraintInterface& c);
 
   void discretize() {}
+
+  /**
+   * @brief A constant distribution has exactly one class: a request for another number of
+   * classes is ignored.
+   */
+  void setNumberOfCategories(size_t) {}
 };
 } // end of namespace bpp.
 #endif // BPP_NUMERIC_PROB_CONSTANTDISTRIBUTION_H
